@@ -217,6 +217,7 @@ static void forward(LEG *g, int dir)
 		if (hit) {
 			applied = sc.fault;
 			if (!strcmp(sc.fault, "flip")) { if ((size_t)(5 + sc.off) < rl) rec[5 + sc.off] ^= (uint8_t)(1 << sc.bit); else applied = "none"; }
+			else if (!strcmp(sc.fault, "xor")) { if ((size_t)(5 + sc.off) < rl && (sc.bit & 255)) { rec[5 + sc.off] ^= (uint8_t)sc.bit; applied = "flip"; } else applied = "none"; }      // bit = an 8-bit mask: the octet becomes another chosen value
 			else if (!strcmp(sc.fault, "hdrflip")) { rec[sc.off % 5] ^= (uint8_t)(1 << sc.bit); }
 			else if (!strcmp(sc.fault, "setb")) { if ((size_t)(5 + sc.off) < rl) rec[5 + sc.off] = (uint8_t)sc.bit; else applied = "none"; }          // set a body byte (length fields!) to a value
 			else if (!strcmp(sc.fault, "cut")) { if ((size_t)sc.off < rl - 5) { outl = 5 + (size_t)sc.off; rec[3] = (uint8_t)(sc.off >> 8); rec[4] = (uint8_t)sc.off; } else applied = "none"; } // consistent record, truncated message
